@@ -526,7 +526,7 @@ def snippet(P, rec, names, ns_paths):
         return "", f"for {dest} in {tok_literal(rec, 'ForIn.1', '1')} {{ }}"
     if k == "Let":
         dest = "x" if f[0].variant == "Symbol" else "(a, b)"
-        hint = ": String" if f[1].variant == "Some" else ""
+        hint = f": {rec.get('hint_type', 'String')}" if f[1].variant == "Some" else ""
         return "", f"let {dest}{hint} = {tok_literal(rec, 'Let.2', '1')}"
     if k == "Assign":
         return "", f"nosuchvar = {tok_literal(rec, 'Assign.1', '1')}"
@@ -554,7 +554,19 @@ def snippet(P, rec, names, ns_paths):
     if k == "Match":
         return "", f"match {tok_literal(rec, 'Match.0', '1')} {{ Some(_) => {{ }} }}"
     if k == "StructLiteral":
-        return "", f"NoSuchStruct{{ a: {tok_literal(rec, 'StructLiteral.1', '1')} }}"
+        v = tok_literal(rec, 'StructLiteral.1', '1')
+        form = rec.get("struct_form", 0)
+        if form == 1:      # a field the struct does not have
+            return "struct VerifSt { a: Int }", f"VerifSt{{ b: {v} }}"
+        if form == 2:      # a known field, then an unknown one (values of earlier fields already consumed)
+            return "struct VerifSt { a: Int }", f"VerifSt{{ a: 1, b: {v} }}"
+        if form == 3:      # wrong field type
+            return "struct VerifSt { a: Int }", f'VerifSt{{ a: "s" }}'
+        if form == 4:      # missing field
+            return "struct VerifSt { a: Int, c: Int }", f"VerifSt{{ a: {v} }}"
+        if form == 5:      # not a struct type
+            return "", f"Int{{ a: {v} }}"
+        return "", f"NoSuchStruct{{ a: {v} }}"
     if k == "Variable":
         return "", "nosuchvariable"
     if k == "Invalid":
@@ -645,8 +657,10 @@ def snippet_alternatives(P, rec, names, ns_paths, limit=8):
     tried as the solver's pick and as String / List / Int; aggregate operands also in their empty form."""
     out = []
     base_variants = [{}]
-    if rec["job"][0] == "userfun":
+    if rec["job"][0] == "userfun" or (rec["job"][0] == "expr" and rec["job"][1] == "Let"):
         base_variants = [{"hint_type": "String"}, {"hint_type": "NoSuchTypeVerif"}]
+    if rec["job"][0] == "expr" and rec["job"][1] == "StructLiteral":
+        base_variants = [{"struct_form": i} for i in range(6)]
     open_labs = [lab for lab, (v, node) in rec["token_values"].items()
                  if node is not None and rec["known_tags"].get(node.id) is None]
     agg_labs = [lab for lab, (v, node) in rec["token_values"].items()
@@ -666,7 +680,7 @@ def snippet_alternatives(P, rec, names, ns_paths, limit=8):
                     out.append(sn)
                 if len(out) >= limit:
                     break
-    for k in ("hint_type", "kind_override", "lit_variant", "no_model_ints"):
+    for k in ("hint_type", "kind_override", "lit_variant", "no_model_ints", "struct_form"):
         rec.pop(k, None)
     if rec["job"][0] == "other":
         # a receiver that is an enum constructor may be *stale*: its enum was redefined with fewer variants after the
